@@ -7,6 +7,7 @@ from props.common import account
 
 COARSENINGS = ["aggregation", "smoothed_aggregation", "ruge_stuben", "smoothed_aggr_emin"]
 MODEL_RELAX = ["damped_jacobi", "spai0", "gauss_seidel"]
+MODEL_RELAX_ALL = MODEL_RELAX + ["ilu0", "chebyshev"]
 DRIVERS = ["amg_" + c for c in COARSENINGS]
 MAX_MODEL_OUT = 250000
 
@@ -98,7 +99,7 @@ def run_cases(ctx, cases, env=None):
             skipped.add(c.cid); continue
         ts, lv = transfers_from_output(o)
         levels[c.cid] = lv
-        if c.relax not in MODEL_RELAX:
+        if c.relax not in MODEL_RELAX_ALL:
             ctx["stats"].setdefault("oracle_only_relax", 0); ctx["stats"]["oracle_only_relax"] += 1
             skipped.add(c.cid); continue
         if len(o) > MAX_MODEL_OUT:
